@@ -132,7 +132,7 @@ RULE = ("flat classes (1..5 fields: Integer/Number/Float incl. sign variants, St
         "(field-lost:non-word-name:generated-class-name).")
 ASSUMPTIONS = [
     "Python's json module is an oracle (Codec): the only law assumed in theorems is loads(dumps(xs)) = xs on lists of strings (explicit hypothesis); the driver instantiates it with Lean.Data.Json",
-    "the field group of errors.py, (?:[\\w.]|[^\\x00-\\x7f\\s])+ since <FIXID3>, is fully modelled (Lean pyFieldWord: ASCII letters/digits, '_', '.', every non-ASCII character that is not Python white space); theorems stay parametric in a `Word` W of which only the ASCII part and W ':' = false are assumed",
+    "the field group of errors.py, (?:[\\w.]|[^\\x00-\\x7f\\s])+ since 18c6055, is fully modelled (Lean pyFieldWord: ASCII letters/digits, '_', '.', every non-ASCII character that is not Python white space); theorems stay parametric in a `Word` W of which only the ASCII part and W ':' = false are assumed",
     "value and problem TEXTS are universally quantified parameters of the model (not predicted); the driver reads them off the real message; predicted are exception class, class prefix, path, suffix, shape, order and count",
     "deserialization: which supplied fields its first phase rejects (phaseOneInvalid) and where / under which leading path each rejection is raised (p1Sites: named / inner / foreign) are modelled and corresponded; the scratch `_name` of every inner Field instance is an INPUT of the model, observed by the harness just before the call; value / problem texts after the head are not predicted. The oracle accepts a known finding only at the site kind where the Lean model places it (never by message text, never by probing the code under test)",
     "PYTHONHASHSEED=0; the class dump lists fields in the real signature order",
